@@ -168,6 +168,9 @@ func (r Future[T]) Foreach(f func(v T), ctx ...Executor) {
 type goExecutor struct{}
 
 func (r goExecutor) ExecuteUnsafe(runnable Runnable) {
+	if verifSpawn(runnable.Run) {
+		return
+	}
 	go runnable.Run()
 }
 
